@@ -326,7 +326,7 @@ func cmdBatch(args []string) {
 				continue
 			}
 			seen[sig] = true
-			path := filepath.Join(*replays, fmt.Sprintf("%s-%d.json", *prop, h.line.Seed))
+			path := filepath.Join(*replays, fmt.Sprintf("%s-%d-%s.json", *prop, h.line.Seed, sim.SigHash(sig)))
 			tr := loadTrace(h.line.TracePath)
 			if tr == nil {
 				internal = append(internal, "trace missing for seed "+fmt.Sprint(h.line.Seed))
@@ -421,6 +421,9 @@ func cmdReplay(args []string) {
 	if len(args) < 1 {
 		fmt.Println("usage: layersim replay <file>")
 		os.Exit(2)
+	}
+	if len(args) > 1 && args[1] == "--debug" {
+		sim.DebugReplay = true
 	}
 	tr := loadTrace(args[0])
 	if tr == nil {
